@@ -41,6 +41,13 @@ pub enum Step {
     Fill { host: usize, proto: Proto, ip: String, first: u16, count: u32 },
     /// bind `ip:0` up to `max` times and keep the sockets (drives the range to exhaustion)
     ZeroMany { host: usize, proto: Proto, ip: String, max: u32 },
+    /// close the range-filling socket whose port lies `back` ports behind the most recently
+    /// allocated ephemeral port (0 = that port itself, i.e. the one just behind the allocator's
+    /// cursor), then bind `ip:0` twice: the single hole must be found, the second bind must fail
+    Reopen { host: usize, proto: Proto, ip: String, back: u32 },
+    /// start a connect from `host` to a listener on another host, keep the SYN-ACK on the wire,
+    /// close the listener while the handshake is in flight, then let the SYN-ACK through
+    CloseDuringHandshake { host: usize, ip: String, port: PortRef, listener: u32 },
 }
 
 impl Step {
@@ -54,6 +61,8 @@ impl Step {
             Step::Spin { .. } => "spin",
             Step::Fill { .. } => "fill",
             Step::ZeroMany { .. } => "zeros",
+            Step::Reopen { .. } => "reopen",
+            Step::CloseDuringHandshake { .. } => "closehs",
         }
     }
 }
@@ -92,7 +101,8 @@ struct Ctx<'a> {
     d: Driver,
     m: Model,
     real: BTreeMap<u32, (usize, RSock)>,
-    bulk_real: Vec<(usize, RSock)>,
+    /// (host, protocol, local address, socket)
+    bulk_real: Vec<(usize, Proto, SocketAddr, RSock)>,
     log: Log,
     rep: Report,
     v: Option<Violation>,
@@ -373,7 +383,7 @@ impl<'a> Ctx<'a> {
                     let r = self.bind_judged("fill", k >= 2, *host, *proto, ip, p as u16);
                     if let Some((s, la)) = r {
                         ports.insert(la.port());
-                        self.bulk_real.push((*host, s));
+                        self.bulk_real.push((*host, *proto, la, s));
                         self.bulk_add(*host, *proto, ip, la.port());
                     }
                     if self.stopped() {
@@ -384,6 +394,16 @@ impl<'a> Ctx<'a> {
                 self.log.tag("fill");
                 self.rep.probes.add("bulk_binds", ports.len() as u64);
             }
+            Step::Reopen { host, proto, ip, back } => self.reopen_step(i, *host, *proto, parse_ip(ip), *back),
+            Step::CloseDuringHandshake { host, ip, port, listener } => {
+                let Some(port) = self.resolve_port(port) else {
+                    self.log.ev(format!("#{i} closehs skipped (target gone)"));
+                    return;
+                };
+                if port != 0 {
+                    self.close_during_handshake(i, *host, SocketAddr::new(parse_ip(ip), port), *listener);
+                }
+            }
             Step::ZeroMany { host, proto, ip, max } => {
                 let ip = parse_ip(ip);
                 let mut okc = 0;
@@ -393,7 +413,7 @@ impl<'a> Ctx<'a> {
                     match r {
                         Some((s, la)) => {
                             okc += 1;
-                            self.bulk_real.push((*host, s));
+                            self.bulk_real.push((*host, *proto, la, s));
                             self.bulk_add(*host, *proto, ip, la.port());
                         }
                         None => {
@@ -407,6 +427,128 @@ impl<'a> Ctx<'a> {
                 self.log.ev(format!("#{i} zeros h{host} {proto:?} {ip} ok {okc}"));
                 self.log.tag("zeros");
             }
+        }
+    }
+
+    fn reopen_step(&mut self, i: usize, h: usize, proto: Proto, ip: IpAddr, back: u32) {
+        let Some(last) = self.last_zero_port[h] else {
+            self.log.ev(format!("#{i} reopen skipped (no ephemeral allocation yet)"));
+            return;
+        };
+        let off = (last - EPH_LO) as u32;
+        let target = EPH_LO + ((off + EPH_SIZE as u32 - back % EPH_SIZE as u32) % EPH_SIZE as u32) as u16;
+        let Some(pos) = self.bulk_real.iter().position(|(bh, bp, la, _)| *bh == h && *bp == proto && la.port() == target && la.is_ipv4() == ip.is_ipv4()) else {
+            self.log.ev(format!("#{i} reopen skipped (port {target} is not held by a range-filling socket)"));
+            return;
+        };
+        let (_, _, la, s) = self.bulk_real.remove(pos);
+        self.d.on(h, || drop(s));
+        for b in self.m.hosts[h].bulk.iter_mut().filter(|b| b.proto == proto && b.ip == la.ip()) {
+            b.ports.remove(&target);
+        }
+        let free = self.m.free_ephemeral(h, proto, ip.is_ipv4());
+        self.log.ev(format!("#{i} reopen h{h} {proto:?}: closed the socket on port {target} ({back} behind the last allocated port {last}); free ephemeral ports now {free}"));
+        self.log.tag("reopen");
+        if free == 1 {
+            self.rep.probes.inc(if back == 0 { "single_hole_just_behind_cursor" } else { "single_hole_elsewhere" });
+        }
+        for _ in 0..2 {
+            match self.bind_judged("reopen-zero", false, h, proto, ip, 0) {
+                Some((s, la)) => {
+                    self.bulk_real.push((h, proto, la, s));
+                    self.bulk_add(h, proto, ip, la.port());
+                    self.rep.probes.inc("single_hole_found");
+                }
+                None => break,
+            }
+            if self.stopped() {
+                return;
+            }
+        }
+    }
+
+    fn close_during_handshake(&mut self, i: usize, h: usize, dst: SocketAddr, lid: u32) {
+        let v4 = dst.is_ipv4();
+        let exp = self.m.route_syn(h, dst);
+        let SynExp::Listener(dh, routed) = exp else {
+            self.log.ev(format!("#{i} closehs skipped (no listener for {dst})"));
+            return;
+        };
+        if routed != lid || dh == h || dst.ip().is_loopback() || !self.m.has_family(h, v4) || self.may_self_connect(h, dst) || self.m.free_ephemeral(h, Proto::Tcp, v4) < 64 {
+            self.log.ev(format!("#{i} closehs skipped"));
+            return;
+        }
+        let wild = self.m.get(dh, lid).map(|s| s.local.ip().is_unspecified()).unwrap_or(false);
+        let mut fut: Option<ConnFut> = Some(Box::pin(TcpStream::connect(dst)));
+        let flag = WakeFlag::new();
+        let mut res = None;
+        let mut held: Vec<Packet> = Vec::new();
+        for _ in 0..4 {
+            if flag.take() {
+                if let Poll::Ready(x) = self.d.poll_fut(h, &flag.waker, fut.as_mut().unwrap().as_mut()) {
+                    res = Some(x);
+                    break;
+                }
+            }
+            self.round(|p| kind(p) == PktKind::SynAck, &mut held);
+            if !held.is_empty() {
+                break;
+            }
+        }
+        if held.is_empty() || res.is_some() {
+            let f = fut.take();
+            self.d.on(h, || drop(f));
+            if let Some(Ok(st)) = res {
+                self.d.on(h, || drop(st));
+            }
+            self.settle(12);
+            self.log.ev(format!("#{i} closehs: handshake could not be caught in flight"));
+            return;
+        }
+        // the handshake is in flight (the server holds a half-open child): close the listener now
+        if let Some((lh, s)) = self.real.remove(&lid) {
+            self.d.on(lh, || drop(s));
+            self.m.remove(lh, lid);
+        }
+        self.rep.faults.inc("listener_closed_with_handshake_in_flight");
+        if wild {
+            self.rep.faults.inc("wildcard_listener_closed_with_handshake_in_flight");
+        }
+        for p in held.drain(..) {
+            self.d.deliver(p);
+        }
+        let cap = self.sc.cfg.give_up_rounds() as usize + 6;
+        for _ in 0..cap {
+            if flag.take() {
+                if let Poll::Ready(x) = self.d.poll_fut(h, &flag.waker, fut.as_mut().unwrap().as_mut()) {
+                    res = Some(x);
+                    break;
+                }
+            }
+            self.plain_round();
+        }
+        let f = fut.take();
+        self.d.on(h, || drop(f));
+        let kindr = match &res {
+            None => "Pending".to_string(),
+            Some(Ok(_)) => "Ok".to_string(),
+            Some(Err(e)) => ek(e),
+        };
+        // the outcome for the connector is not judged (it may see the SYN-ACK before the reset);
+        // what is judged afterwards: the port is free again, nobody accepts or answers on it
+        self.log.ev(format!("#{i} closehs h{h} -> {dst}: listener id{lid} on h{dh} closed mid-handshake, connector got {kindr}"));
+        self.log.tag("closehs");
+        if let Some(Ok(st)) = res {
+            self.d.on(h, || drop(st));
+        }
+        self.settle(12);
+        let stray = self.accept_all();
+        if let Some((l, ah, _, peer)) = stray.first() {
+            let msg = format!("#{i}: listener id{l} on h{ah} accepted the connection from {peer} that was made to the closed listener id{lid}");
+            self.fail("TcpMisaccept", msg);
+        }
+        for (_, ah, s, _) in stray {
+            self.d.on(ah, || drop(s));
         }
     }
 
@@ -1196,7 +1338,7 @@ impl Property for C17 {
     type Scenario = Scenario;
 
     fn rule() -> String {
-        "seeded histories of 3-12 steps (UDP bind / TCP listener bind on wildcard, loopback, own specific, other hosts' and unknown addresses, v4 and v6, port 0 or a fixed port from a pool of 5 incl. two inside the ephemeral range; UDP connect to live or arbitrary peers; TCP connect (optionally with the SYN-ACK held on the wire so that the SYN is retransmitted) + accept; close; ephemeral-cursor rotation by bind/drop incl. full wrap-around; thorough: filling the 16384-port range and binding :0 until exhaustion) on 1-3 hosts owning 1-3 addresses; after every step a probe sweep: uniquely tagged UDP datagrams from a fresh wildcard :0 socket per host and family and from every live UDP socket to every (address of every host + loopback + unknown, port of interest) pair, TCP connects from every host to the same destinations, one tagged message each way on every established connection; every result (bind Ok/error kind, chosen port, which socket observed which tag with which source, connect result, which listener accepted, addresses) is compared with the reference socket table written from the property text. Non-trivial: a sweep ran while >=2 live sockets shared a port number on one host; distinct = digest of step kinds, outcome kinds and per-sweep delivered counts".into()
+        "seeded histories of 3-12 steps (UDP bind / TCP listener bind on wildcard, loopback, own specific, other hosts' and unknown addresses, v4 and v6, port 0 or a fixed port from a pool of 5 incl. two inside the ephemeral range; UDP connect to live or arbitrary peers; TCP connect (optionally with the SYN-ACK held on the wire so that the SYN is retransmitted) + accept; close; closing a listener (preferably a wildcard-bound one) while a handshake to it is in flight with its SYN-ACK kept on the wire, followed by a bind of the same address; ephemeral-cursor rotation by bind/drop incl. full wrap-around; in 1/4000 of the thorough scenarios and 3 fixed slots of the quick tier: filling the 16384-port range of one protocol and family, binding :0 until exhaustion, then re-opening single holes at seeded positions relative to the allocator's cursor (the port just behind it, its neighbours, anywhere) and binding :0 twice) on 1-3 hosts owning 1-3 addresses; after every step a probe sweep: uniquely tagged UDP datagrams from a fresh wildcard :0 socket per host and family and from every live UDP socket to every (address of every host + loopback + unknown, port of interest) pair, TCP connects from every host to the same destinations, one tagged message each way on every established connection; every result (bind Ok/error kind, chosen port, which socket observed which tag with which source, connect result, which listener accepted, addresses) is compared with the reference socket table written from the property text. Non-trivial: a sweep ran while >=2 live sockets shared a port number on one host; distinct = digest of step kinds, outcome kinds and per-sweep delivered counts".into()
     }
     fn components_real() -> Vec<&'static str> {
         vec!["turmoil-net: Kernel::bind / PortAllocator / SocketTable (binding + connection index), udp::deliver, tcp::deliver + find_listener + accept_syn, Fabric::deliver routing by destination IP, loopback fold-back in Kernel::egress, shim UdpSocket / TcpListener / TcpStream"]
@@ -1222,18 +1364,20 @@ impl Property for C17 {
         }
     }
 
-    fn generate(rng: &mut Rng, _idx: u64, tier: Tier) -> Scenario {
+    fn generate(rng: &mut Rng, idx: u64, tier: Tier) -> Scenario {
         let nh = rng.usize(1, 3);
         let hosts: Vec<Vec<String>> = (0..nh).map(|h| host_addrs(rng, h)).collect();
         let unknown = vec!["10.9.9.9".to_string(), "fd00::9:9".to_string()];
         let cfg = NetCfg { retx_threshold: rng.range(2, 3) as u32, retx_max: rng.range(1, 4) as u32, backlog: 64 };
-        let exhaustion = tier == Tier::Thorough && rng.chance(1, 4000);
+        // range exhaustion is expensive (the kernel scans its bindings per candidate port): one in
+        // 4000 scenarios in the thorough tier, three fixed slots (slimmer) in the quick tier
+        let exhaustion = (tier == Tier::Thorough && rng.chance(1, 4000)) || (tier == Tier::Quick && idx % 40_000 == 20_000);
         let mut steps = Vec::new();
         let mut shadow: Vec<Shadow> = Vec::new();
         let mut next_id = 1u32;
         let n = rng.usize(3, 12);
         for _ in 0..n {
-            let k = rng.weighted(&[50, 9, 14, 20, 7]);
+            let k = rng.weighted(&[50, 9, 14, 20, 7, 7]);
             match k {
                 0 => {
                     let host = rng.below(nh as u64) as usize;
@@ -1299,6 +1443,31 @@ impl Property for C17 {
                     let s = shadow.remove(i);
                     steps.push(Step::Close { sock: s.id });
                 }
+                5 => {
+                    // close a listener while a handshake to it is in flight (SYN-ACK kept on the
+                    // wire), preferably a wildcard-bound one, then bind its address again
+                    let ls: Vec<usize> = (0..shadow.len()).filter(|&i| shadow[i].proto == Proto::Tcp && !shadow[i].conn && nh > 1).collect();
+                    if ls.is_empty() {
+                        continue;
+                    }
+                    let wild: Vec<usize> = ls.iter().copied().filter(|&i| shadow[i].ip == "0.0.0.0" || shadow[i].ip == "::").collect();
+                    let li = if !wild.is_empty() && rng.chance(2, 3) { *rng.pick(&wild) } else { *rng.pick(&ls) };
+                    let t = shadow.remove(li);
+                    let others: Vec<usize> = (0..nh).filter(|h| *h != t.host).collect();
+                    let host = *rng.pick(&others);
+                    let ip = reach_ip(rng, &hosts, t.host, &t.ip, host);
+                    steps.push(Step::CloseDuringHandshake { host, ip, port: t.port.clone(), listener: t.id });
+                    if let PortRef::Fixed(p) = t.port {
+                        if rng.chance(4, 5) {
+                            let id = next_id;
+                            next_id += 1;
+                            let proto = if rng.chance(5, 6) { Proto::Tcp } else { Proto::Udp };
+                            let ip = if rng.chance(3, 4) { t.ip.clone() } else { pick_bind_ip(rng, &hosts, t.host, &unknown) };
+                            shadow.push(Shadow { id, host: t.host, proto, ip: ip.clone(), port: PortRef::Fixed(p), conn: false });
+                            steps.push(Step::Bind { id, host: t.host, proto, ip, port: p });
+                        }
+                    }
+                }
                 _ => {
                     let host = rng.below(nh as u64) as usize;
                     let n = match rng.below(4) {
@@ -1321,7 +1490,18 @@ impl Property for C17 {
             let skip_hi = rng.range(0, 3) as u32;
             steps.push(Step::Fill { host, proto, ip: ip.clone(), first: EPH_LO + skip_lo, count: EPH_SIZE as u32 - skip_lo as u32 - skip_hi });
             let zip = if rng.bool() { ip.clone() } else if ip.contains(':') { "::1".to_string() } else { "127.0.0.1".to_string() };
-            steps.push(Step::ZeroMany { host, proto, ip: zip, max: 8 });
+            steps.push(Step::ZeroMany { host, proto, ip: zip.clone(), max: 8 });
+            // one hole at a time, at seeded positions relative to the allocator's cursor: the most
+            // recently allocated port (just behind the cursor), its neighbours, anywhere
+            let mut backs: Vec<u32> = vec![0, rng.range(1, EPH_SIZE as u64 - 1) as u32];
+            if tier == Tier::Thorough {
+                backs.push(*rng.pick(&[1u32, 2, EPH_SIZE as u32 - 1, EPH_SIZE as u32 - 2]));
+                backs.push(0);
+            }
+            rng.shuffle(&mut backs);
+            for back in backs {
+                steps.push(Step::Reopen { host, proto, ip: zip.clone(), back });
+            }
             steps.push(Step::Bind { id: next_id, host, proto, ip: ip.clone(), port: *rng.pick(&FIXED_PORTS) });
             sweep_every = false;
         }
@@ -1356,7 +1536,7 @@ impl Property for C17 {
                 for (_, (h, s)) in real {
                     d.on(h, || drop(s));
                 }
-                for (h, s) in bulk_real {
+                for (h, _, _, s) in bulk_real {
                     d.on(h, || drop(s));
                 }
             }
@@ -1439,11 +1619,11 @@ impl Property for C17 {
         if sc.hosts.len() > 1 {
             let last = sc.hosts.len() - 1;
             let uses = sc.steps.iter().any(|s| match s {
-                Step::Bind { host, .. } | Step::TcpConnect { host, .. } | Step::Spin { host, .. } | Step::Fill { host, .. } | Step::ZeroMany { host, .. } => *host == last,
+                Step::Bind { host, .. } | Step::TcpConnect { host, .. } | Step::Spin { host, .. } | Step::Fill { host, .. } | Step::ZeroMany { host, .. } | Step::Reopen { host, .. } | Step::CloseDuringHandshake { host, .. } => *host == last,
                 _ => false,
             });
             let addr_used = sc.steps.iter().any(|s| match s {
-                Step::Bind { ip, .. } | Step::UdpConnect { ip, .. } | Step::TcpConnect { ip, .. } => sc.hosts[last].contains(ip),
+                Step::Bind { ip, .. } | Step::UdpConnect { ip, .. } | Step::TcpConnect { ip, .. } | Step::CloseDuringHandshake { ip, .. } => sc.hosts[last].contains(ip),
                 _ => false,
             });
             if !uses && !addr_used {
@@ -1458,7 +1638,7 @@ impl Property for C17 {
                 for a in 0..sc.hosts[h].len() {
                     let addr = &sc.hosts[h][a];
                     let used = sc.steps.iter().any(|s| match s {
-                        Step::Bind { ip, .. } | Step::UdpConnect { ip, .. } | Step::TcpConnect { ip, .. } | Step::Fill { ip, .. } | Step::ZeroMany { ip, .. } => ip == addr,
+                        Step::Bind { ip, .. } | Step::UdpConnect { ip, .. } | Step::TcpConnect { ip, .. } | Step::Fill { ip, .. } | Step::ZeroMany { ip, .. } | Step::Reopen { ip, .. } | Step::CloseDuringHandshake { ip, .. } => ip == addr,
                         _ => false,
                     });
                     if !used {
